@@ -53,11 +53,10 @@ let show_fs (f : (n list list * node) list) : string =
 
 let show_err (e : xerr) : string =
   match e with
-  | XSymlinkDir -> "ERR symlinkdir"
   | XOutside -> "ERR outside"
   | XDigest -> "ERR digest"
   | XAbsLink | XWriteThrough -> "UNJUDGED"
-  | _ -> "ERR other"
+  | _ -> "ERR reject"
 
 let pairs (s : string) : (n list * nat) list =
   if s = "-" || s = "" then [] else
